@@ -142,6 +142,10 @@ bool
 nni_taskq_drain(nni_taskq *tq)
 {
 	bool result = false;
+	if (tq == NULL) {
+		// (initialisation failed before the task queue existed)
+		return (false);
+	}
 	nni_mtx_lock(&tq->tq_mtx);
 	while (!nni_list_empty(&tq->tq_tasks)) {
 		result = true;
